@@ -1886,4 +1886,840 @@ theorem query_single {b : Built (Dom.tally N K c)} (H : BaseOK p b.base) (hc : C
 
 end Assemble
 
+/-! ## 14. `compile`, general case: the components partition the units -/
+section Components
+
+theorem nodup_eraseDups {α : Type} [BEq α] [LawfulBEq α] (l : List α) : l.eraseDups.Nodup := by
+  induction hn : l.length using Nat.strong_induction_on generalizing l with
+  | _ n ih =>
+    cases l with
+    | nil => simp
+    | cons a as =>
+      rw [List.eraseDups_cons, List.nodup_cons]
+      have h1 : (as.filter (fun b => !b == a)).length ≤ as.length := List.length_filter_le _ _
+      refine ⟨?_, ih (as.filter (fun b => !b == a)).length (by rw [← hn, List.length_cons]; omega) _ rfl⟩
+      rw [List.mem_eraseDups, List.mem_filter]
+      simp
+
+theorem mem_dedupSorted (l : List ℕ) (x : ℕ) : x ∈ dedupSorted l ↔ x ∈ l := by
+  unfold dedupSorted; rw [List.mem_eraseDups, List.mem_mergeSort]
+
+theorem nodup_dedupSorted (l : List ℕ) : (dedupSorted l).Nodup := nodup_eraseDups _
+
+theorem mem_neighborsOf (pairs : List (ℕ × ℕ)) (u v : ℕ) :
+    v ∈ neighborsOf pairs u ↔ ∃ q ∈ pairs, (q.1 = u ∧ q.2 = v) ∨ (q.1 ≠ u ∧ q.2 = u ∧ q.1 = v) := by
+  unfold neighborsOf
+  rw [mem_dedupSorted, List.mem_filterMap]
+  constructor
+  · rintro ⟨q, hq, h⟩
+    refine ⟨q, hq, ?_⟩
+    by_cases h1 : q.1 = u
+    · simp [h1] at h; exact Or.inl ⟨h1, h⟩
+    · by_cases h2 : q.2 = u
+      · simp [h1, h2] at h; exact Or.inr ⟨h1, h2, h⟩
+      · simp [h1, h2] at h
+  · rintro ⟨q, hq, h⟩
+    refine ⟨q, hq, ?_⟩
+    rcases h with ⟨h1, h2⟩ | ⟨h1, h2, h3⟩
+    · simp [h1, h2]
+    · have h1' : ¬ (v = u) := h3 ▸ h1
+      simp [h1', h2, h3]
+
+theorem neighborsOf_symm (pairs : List (ℕ × ℕ)) (u v : ℕ) (h : v ∈ neighborsOf pairs u) : u ∈ neighborsOf pairs v := by
+  rw [mem_neighborsOf] at h ⊢
+  obtain ⟨q, hq, h⟩ := h
+  refine ⟨q, hq, ?_⟩
+  rcases h with ⟨h1, h2⟩ | ⟨h1, h2, h3⟩
+  · by_cases huv : q.1 = v
+    · exact Or.inl ⟨huv, by rw [h2, ← huv, h1]⟩
+    · exact Or.inr ⟨huv, h2, h1⟩
+  · exact Or.inl ⟨h3, h2⟩
+
+/-- connected through `neighborsOf` -/
+inductive Conn (pairs : List (ℕ × ℕ)) : ℕ → ℕ → Prop
+  | refl (u : ℕ) : Conn pairs u u
+  | step {u v w : ℕ} : Conn pairs u v → w ∈ neighborsOf pairs v → Conn pairs u w
+
+theorem Conn.trans {pairs : List (ℕ × ℕ)} {u v w : ℕ} (h1 : Conn pairs u v) (h2 : Conn pairs v w) : Conn pairs u w := by
+  induction h2 with
+  | refl => exact h1
+  | step _ hn ih => exact .step ih hn
+
+theorem Conn.symm {pairs : List (ℕ × ℕ)} {u v : ℕ} (h : Conn pairs u v) : Conn pairs v u := by
+  induction h with
+  | refl => exact .refl _
+  | step _ hn ih => exact Conn.trans (.step (.refl _) (neighborsOf_symm _ _ _ hn)) ih
+
+/-- closed under `neighborsOf` -/
+def Closed (pairs : List (ℕ × ℕ)) (C : List ℕ) : Prop := ∀ x ∈ C, ∀ y ∈ neighborsOf pairs x, y ∈ C
+
+theorem Closed.conn {pairs : List (ℕ × ℕ)} {C : List ℕ} (hC : Closed pairs C) {u v : ℕ} (hu : u ∈ C)
+    (h : Conn pairs u v) : v ∈ C := by
+  induction h with
+  | refl => exact hu
+  | step _ hn ih => exact hC _ ih _ hn
+
+theorem length_le_of_nodup_lt (l : List ℕ) (n : ℕ) (hnd : l.Nodup) (hlt : ∀ x ∈ l, x < n) : l.length ≤ n := by
+  have := (List.subperm_of_subset hnd (fun x hx => List.mem_range.mpr (hlt x hx))).length_le
+  simpa using this
+
+/-- `componentOf` computes the connected component -/
+theorem componentOf_spec (pairs : List (ℕ × ℕ)) (n u : ℕ) (hp : ∀ q ∈ pairs, q.1 < n ∧ q.2 < n) (fuel : ℕ)
+    (acc : List ℕ) (hnd : acc.Nodup) (hlt : ∀ x ∈ acc, x < n) (hu : u ∈ acc) (hconn : ∀ x ∈ acc, Conn pairs u x)
+    (hfuel : n + 1 ≤ acc.length + fuel) :
+    (componentOf pairs u fuel acc).Nodup ∧ (∀ x ∈ componentOf pairs u fuel acc, x < n) ∧
+    u ∈ componentOf pairs u fuel acc ∧ (∀ x ∈ componentOf pairs u fuel acc, Conn pairs u x) ∧
+    Closed pairs (componentOf pairs u fuel acc) := by
+  induction fuel generalizing acc with
+  | zero =>
+    have := length_le_of_nodup_lt acc n hnd hlt
+    omega
+  | succ fuel ih =>
+    have hN : ∀ x y, y ∈ neighborsOf pairs x → y < n := by
+      intro x y hy
+      rw [mem_neighborsOf] at hy
+      obtain ⟨q, hq, h⟩ := hy
+      rcases h with ⟨_, h2⟩ | ⟨_, _, h3⟩
+      · rw [← h2]; exact (hp q hq).2
+      · rw [← h3]; exact (hp q hq).1
+    have hmem : ∀ x, x ∈ dedupSorted (acc ++ acc.flatMap (neighborsOf pairs)) ↔
+        x ∈ acc ∨ ∃ a ∈ acc, x ∈ neighborsOf pairs a := by
+      intro x; rw [mem_dedupSorted, List.mem_append, List.mem_flatMap]
+    have hnd' := nodup_dedupSorted (acc ++ acc.flatMap (neighborsOf pairs))
+    have hsub : acc ⊆ dedupSorted (acc ++ acc.flatMap (neighborsOf pairs)) := fun x hx => (hmem x).mpr (Or.inl hx)
+    unfold componentOf
+    simp only
+    split
+    · rename_i heq
+      have heq' : (dedupSorted (acc ++ acc.flatMap (neighborsOf pairs))).length = acc.length := by simpa using heq
+      refine ⟨hnd, hlt, hu, hconn, ?_⟩
+      have hperm := (List.subperm_of_subset hnd hsub).perm_of_length_le (by omega)
+      intro x hx y hy
+      exact hperm.mem_iff.mpr ((hmem y).mpr (Or.inr ⟨x, hx, hy⟩))
+    · rename_i hne
+      have hne' : (dedupSorted (acc ++ acc.flatMap (neighborsOf pairs))).length ≠ acc.length := by simpa using hne
+      have hle := (List.subperm_of_subset hnd hsub).length_le
+      apply ih _ hnd'
+      · intro x hx
+        rcases (hmem x).mp hx with h | ⟨a, _, h⟩
+        · exact hlt x h
+        · exact hN a x h
+      · exact hsub hu
+      · intro x hx
+        rcases (hmem x).mp hx with h | ⟨a, ha, h⟩
+        · exact hconn x h
+        · exact .step (hconn a ha) h
+      · omega
+
+end Components
+
+section Components2
+
+def compStep (pairs : List (ℕ × ℕ)) (n : ℕ) (comps : List (List ℕ)) (u : ℕ) : List (List ℕ) :=
+  if comps.any (·.contains u) then comps else comps ++ [componentOf pairs u n [u]]
+
+theorem components_eq (n : ℕ) (pairs : List (ℕ × ℕ)) : components n pairs = (List.range n).foldl (compStep pairs n) [] := rfl
+
+theorem components_inv (pairs : List (ℕ × ℕ)) (n : ℕ) (hp : ∀ q ∈ pairs, q.1 < n ∧ q.2 < n) (k : ℕ) (hk : k ≤ n) :
+    ((List.range k).foldl (compStep pairs n) []).flatten.Nodup ∧
+    (∀ x ∈ ((List.range k).foldl (compStep pairs n) []).flatten, x < n) ∧
+    (∀ u, u < k → u ∈ ((List.range k).foldl (compStep pairs n) []).flatten) ∧
+    (∀ C ∈ (List.range k).foldl (compStep pairs n) [], Closed pairs C) := by
+  induction k with
+  | zero => simp
+  | succ k ih =>
+    obtain ⟨h1, h2, h3, h4⟩ := ih (by omega)
+    rw [List.range_succ, List.foldl_append, List.foldl_cons, List.foldl_nil]
+    generalize (List.range k).foldl (compStep pairs n) [] = comps at h1 h2 h3 h4 ⊢
+    unfold compStep
+    split
+    · rename_i hany
+      refine ⟨h1, h2, fun u hu => ?_, h4⟩
+      by_cases huk : u < k
+      · exact h3 u huk
+      · have : u = k := by omega
+        subst this
+        simp only [List.any_eq_true, List.contains_iff_mem] at hany
+        obtain ⟨C, hC, hu⟩ := hany
+        exact List.mem_flatten.mpr ⟨C, hC, hu⟩
+    · rename_i hany
+      have hnot : ∀ C ∈ comps, k ∉ C := by
+        intro C hC hk'
+        apply hany
+        simp only [List.any_eq_true, List.contains_iff_mem]
+        exact ⟨C, hC, hk'⟩
+      obtain ⟨c1, c2, c3, c4, c5⟩ := componentOf_spec pairs n k hp n [k] (by simp) (by simp; omega) (by simp)
+        (by intro x hx; simp at hx; subst hx; exact .refl _) (by simp; omega)
+      rw [List.flatten_append, List.flatten_singleton]
+      refine ⟨?_, ?_, ?_, ?_⟩
+      · rw [List.nodup_append]
+        refine ⟨h1, c1, ?_⟩
+        intro x hx y hy hxy
+        subst hxy
+        obtain ⟨C, hC, hxC⟩ := List.mem_flatten.mp hx
+        exact hnot C hC ((h4 C hC).conn hxC (c4 x hy).symm)
+      · intro x hx
+        rcases List.mem_append.mp hx with h | h
+        · exact h2 x h
+        · exact c2 x h
+      · intro u hu
+        by_cases huk : u < k
+        · exact List.mem_append.mpr (Or.inl (h3 u huk))
+        · have : u = k := by omega
+          subst this
+          exact List.mem_append.mpr (Or.inr c3)
+      · intro C hC
+        rcases List.mem_append.mp hC with h | h
+        · exact h4 C h
+        · simp only [List.mem_singleton] at h; subst h; exact c5
+
+theorem components_perm (pairs : List (ℕ × ℕ)) (n : ℕ) (hp : ∀ q ∈ pairs, q.1 < n ∧ q.2 < n) :
+    (components n pairs).flatten.Perm (List.range n) := by
+  obtain ⟨h1, h2, h3, _⟩ := components_inv pairs n hp n (Nat.le_refl _)
+  rw [components_eq, List.perm_ext_iff_of_nodup h1 List.nodup_range]
+  intro x
+  rw [List.mem_range]
+  exact ⟨h2 x, h3 x⟩
+
+theorem mem_pairsOf (us : List ℕ) (q : ℕ × ℕ) (h : q ∈ pairsOf us) : q.1 ∈ us ∧ q.2 ∈ us := by
+  induction us with
+  | nil => simp [pairsOf] at h
+  | cons u rest ih =>
+    simp only [pairsOf, List.mem_append, List.mem_map] at h
+    rcases h with ⟨v, hv, rfl⟩ | h
+    · exact ⟨by simp, by simp [hv]⟩
+    · have := ih h
+      exact ⟨by simp [this.1], by simp [this.2]⟩
+
+theorem pairs_lt {p : Prov.P} (hc : Conjunctive p) :
+    ∀ q ∈ (p.data.flatMap (fun r => pairsOf (dedupSorted (rowUnits r)))).eraseDups, q.1 < p.nUnits ∧ q.2 < p.nUnits := by
+  intro q hq
+  rw [List.mem_eraseDups, List.mem_flatMap] at hq
+  obtain ⟨r, hr, hq⟩ := hq
+  have := mem_pairsOf _ q hq
+  rw [mem_dedupSorted, mem_dedupSorted] at this
+  exact ⟨(hc.rowLits r hr).2 _ this.1, (hc.rowLits r hr).2 _ this.2⟩
+
+end Components2
+
+section Components3
+variable {V : Type} [AddCommMonoid V]
+
+/-- the co-occurrence graph of `compile` -/
+def pairsOfP (p : Prov.P) : List (ℕ × ℕ) := (p.data.flatMap (fun r => pairsOf (dedupSorted (rowUnits r)))).eraseDups
+
+/-- the diagram `compile` builds for one component -/
+def vertOf (V : Type) [Add V] [Zero V] (C : ℕ) (leaves comp : List ℕ) : Except Err (Diagram V) :=
+  if (comp.filter (fun u => !leaves.contains u)).isEmpty then pure (chain (comp.filter (fun u => leaves.contains u)) C)
+  else stack (comp.filter (fun u => !leaves.contains u))
+    (List.replicate (C ^ (comp.filter (fun u => !leaves.contains u)).length) (chain (comp.filter (fun u => leaves.contains u)) C))
+
+theorem compile_general' (p : Prov.P) (cmp : Compiled V) (h : compile p = .ok cmp) (h2 : p.nConj ≠ 1) :
+    ∃ vertical : List (Diagram V),
+      (components p.nUnits (pairsOfP p)).mapM (vertOf V p.nCands (leafUnits p.nUnits (pairsOfP p))) = .ok vertical ∧
+      concatenate vertical = .ok cmp.add := by
+  unfold compile at h
+  simp only [beq_iff_eq, h2, if_false] at h
+  split at h
+  · cases h
+  split at h
+  · cases h
+  cases hv : (components p.nUnits (pairsOfP p)).mapM (vertOf V p.nCands (leafUnits p.nUnits (pairsOfP p))) with
+  | error e =>
+    have hv' := hv
+    unfold vertOf pairsOfP at hv'
+    rw [hv'] at h; cases h
+  | ok vertical =>
+    have hv' := hv
+    unfold vertOf pairsOfP at hv'
+    rw [hv'] at h
+    simp only [bind, Except.bind] at h
+    cases ha : concatenate vertical with
+    | error e => rw [ha] at h; cases h
+    | ok add =>
+      rw [ha] at h
+      simp only at h
+      cases hl : p.data.mapM (fun r => add.getUpdateLocation (rowLits r)) with
+      | error e => rw [hl] at h; cases h
+      | ok locs =>
+        rw [hl] at h
+        simp only [pure, Except.pure, Except.ok.injEq] at h
+        subst h
+        exact ⟨vertical, rfl, ha⟩
+
+theorem vertOf_units (leaves comp : List ℕ) (e : Diagram V) (h : vertOf V 2 leaves comp = .ok e) : e.units.Perm comp := by
+  unfold vertOf at h
+  split at h
+  · rename_i hemp
+    simp only [pure, Except.pure, Except.ok.injEq] at h
+    subst h
+    have hnil : comp.filter (fun u => !leaves.contains u) = [] := by simpa using hemp
+    have hall := List.filter_eq_nil_iff.mp hnil
+    have : comp.filter (fun u => leaves.contains u) = comp := by
+      rw [List.filter_eq_self]
+      intro a ha
+      have := hall a ha
+      simpa using this
+    simp only [chain]
+    rw [this]
+  · have hpos : 2 ^ (comp.filter (fun u => !leaves.contains u)).length =
+        (2 ^ (comp.filter (fun u => !leaves.contains u)).length - 1) + 1 := by
+      have : 0 < 2 ^ (comp.filter (fun u => !leaves.contains u)).length := Nat.pow_pos (by omega)
+      omega
+    rw [hpos, List.replicate_succ, stack_eq] at h
+    split at h
+    · cases h
+    split at h
+    · cases h
+    split at h
+    · cases h
+    simp only [Except.ok.injEq] at h
+    subst h
+    simp only [chain]
+    exact List.perm_append_comm.trans (List.filter_append_perm (fun u => leaves.contains u) comp)
+
+theorem vertOf_reach (leaves comp : List ℕ) (e : Diagram V) (h : vertOf V 2 leaves comp = .ok e) : Reach e := by
+  unfold vertOf at h
+  split at h
+  · simp only [pure, Except.pure, Except.ok.injEq] at h
+    rw [← h]; exact Reach.chain _ _
+  · exact Reach.stack _ _ _ (comp.filter (fun u => leaves.contains u)).length
+      (fun e' he' => by rw [(List.mem_replicate.mp he').2]; exact Reach.chain _ _)
+      (fun e' he' => by rw [(List.mem_replicate.mp he').2]; exact ⟨rfl, rfl⟩) h
+
+theorem mapM_forall₂ {α β : Type} (f : α → Except Err β) (l : List α) (ys : List β) (h : l.mapM f = .ok ys) :
+    List.Forall₂ (fun x y => f x = .ok y) l ys := by
+  induction l generalizing ys with
+  | nil =>
+    simp only [List.mapM_nil, pure, Except.pure, Except.ok.injEq] at h
+    subst h; exact .nil
+  | cons a l ih =>
+    rw [List.mapM_cons] at h
+    cases hfa : f a with
+    | error e => rw [hfa] at h; cases h
+    | ok b =>
+      rw [hfa] at h
+      cases hl : List.mapM f l with
+      | error e => rw [hl] at h; cases h
+      | ok bs =>
+        rw [hl] at h
+        simp only [bind, Except.bind, pure, Except.pure, Except.ok.injEq] at h
+        subst h
+        exact .cons hfa (ih bs hl)
+
+theorem forall₂_exists_left {α β : Type} {R : α → β → Prop} {l : List α} {ys : List β} (h : List.Forall₂ R l ys) :
+    ∀ y ∈ ys, ∃ x ∈ l, R x y := by
+  induction h with
+  | nil => simp
+  | cons hr _ ih =>
+    intro y hy
+    rcases List.mem_cons.mp hy with rfl | hy
+    · exact ⟨_, by simp, hr⟩
+    · obtain ⟨x, hx, hxy⟩ := ih y hy
+      exact ⟨x, by simp [hx], hxy⟩
+
+/-- the units of the compiled diagram are the units of `p`, each exactly once -/
+theorem compile_units_perm (p : Prov.P) (cmp : Compiled V) (h : compile p = .ok cmp) (hc : Conjunctive p)
+    (hC : p.nCands = 2) : cmp.add.units.Perm (List.range p.nUnits) := by
+  by_cases h2 : p.nConj = 1
+  · rw [compile_chain p (compile_nDisj p cmp h) h2] at h
+    simp only [Except.ok.injEq] at h
+    subst h
+    exact List.Perm.refl _
+  · obtain ⟨vertical, hv, hcat⟩ := compile_general' p cmp h h2
+    rw [hC] at hv
+    have hF := mapM_forall₂ _ _ _ hv
+    have hwf : ∀ e ∈ vertical, e.WF := by
+      intro e he
+      obtain ⟨comp, _, hce⟩ := forall₂_exists_left hF e he
+      exact (vertOf_reach _ _ _ hce).inv.1
+    have hunits := (concat_spec vertical cmp.add hcat hwf).2.1
+    have hF' : List.Forall₂ (fun (e : Diagram V) comp => e.units.Perm comp) vertical
+        (components p.nUnits (pairsOfP p)) :=
+      List.Forall₂.flip (hF.imp (fun comp e h => vertOf_units _ _ _ h))
+    have hperm := List.Perm.flatten_congr ((List.forall₂_map_left_iff).mpr hF')
+    rw [hunits, List.flatMap_def]
+    exact hperm.trans (components_perm _ _ (pairs_lt hc))
+
+end Components3
+
+/-! ## 15. `get_update_location`: the edges of the last unit reached by the consistent paths -/
+section Walk
+variable {V : Type} [AddCommMonoid V]
+
+/-- node reached from node `j` after following `as` -/
+def nodeAfter : List (Level V) → ℕ → List ℕ → ℕ
+  | [], j, _ => j
+  | _ :: _, j, [] => j
+  | lv :: rest, j, a :: as => nodeAfter rest ((nodeAt lv j).ch a) as
+
+theorem nodeAfter_nil (L : List (Level V)) (j : ℕ) : nodeAfter L j [] = j := by
+  cases L <;> rfl
+
+theorem nodeAfter_concat (L : List (Level V)) (j : ℕ) (pre : List ℕ) (c : ℕ) (h : pre.length < L.length) :
+    nodeAfter L j (pre ++ [c]) = (nodeAt (L.getD pre.length []) (nodeAfter L j pre)).ch c := by
+  induction L generalizing j pre with
+  | nil => simp at h
+  | cons lv rest ih =>
+    cases pre with
+    | nil => simp [nodeAfter, nodeAfter_nil]
+    | cons a pre =>
+      simp only [List.cons_append, nodeAfter, List.length_cons, List.getD_cons_succ]
+      exact ih _ pre (by simpa using h)
+
+/-- the edges of the path, explicitly -/
+theorem pathEdges_eq (L : List (Level V)) (j : ℕ) (as : List ℕ) (i : ℕ) (h : as.length ≤ L.length) :
+    pathEdges L j as i = (List.range as.length).map (fun k => (i + k, nodeAfter L j (as.take k), as.getD k 0)) := by
+  induction L generalizing j as i with
+  | nil =>
+    have : as = [] := List.length_eq_zero_iff.mp (by simpa using h)
+    subst this; rfl
+  | cons lv rest ih =>
+    cases as with
+    | nil => rfl
+    | cons a as =>
+      simp only [pathEdges, List.length_cons, List.range_succ_eq_map, List.map_cons, List.map_map]
+      rw [ih _ as (i + 1) (by simpa using h)]
+      simp only [List.take_zero, nodeAfter_nil, List.getD_cons_zero, Nat.add_zero, List.cons.injEq, true_and]
+      apply List.map_congr_left
+      intro k _
+      simp only [Function.comp, List.take_succ_cons, nodeAfter, List.getD_cons_succ]
+      rw [show i + 1 + k = i + (k + 1) by omega]
+
+theorem count_level_aux (m lvl : ℕ) (hl : lvl < m) (f : ℕ → ℕ × ℕ × ℕ) (hf : ∀ k, (f k).1 = k)
+    (loc : List (ℕ × ℕ × ℕ)) (hloc : ∀ e ∈ loc, e.1 = lvl) :
+    (((List.range m).map f).filter (fun e => loc.contains e)).length = if f lvl ∈ loc then 1 else 0 := by
+  rw [List.filter_map, List.length_map]
+  have hfil : (List.range m).filter ((fun e => loc.contains e) ∘ f) =
+      (List.range m).filter (fun k => k == lvl && decide (f lvl ∈ loc)) := by
+    apply List.filter_congr
+    intro k _
+    simp only [Function.comp, List.contains_iff_mem]
+    by_cases hk : k = lvl
+    · subst hk; simp
+    · have : f k ∉ loc := fun hm => hk ((hf k).symm.trans (hloc _ hm))
+      simp [hk, this]
+  rw [hfil]
+  by_cases hm : f lvl ∈ loc
+  · rw [if_pos hm]
+    have : (List.range m).filter (fun k => k == lvl && decide (f lvl ∈ loc)) = (List.range m).filter (fun k => k == lvl) := by
+      apply List.filter_congr; intro k _; simp [hm]
+    rw [this, ← List.countP_eq_length_filter, ← List.count_eq_countP, List.count_eq_one_of_mem List.nodup_range]
+    rw [List.mem_range]; exact hl
+  · rw [if_neg hm]
+    have : (List.range m).filter (fun k => k == lvl && decide (f lvl ∈ loc)) = [] := by
+      rw [List.filter_eq_nil_iff]; intro k _; simp [hm]
+    rw [this]; rfl
+
+/-- number of crossings of a set of edges of one level -/
+theorem cross_level (L : List (Level V)) (j : ℕ) (as : List ℕ) (h : as.length = L.length) (loc : List (ℕ × ℕ × ℕ))
+    (lvl : ℕ) (hl : lvl < L.length) (hloc : ∀ e ∈ loc, e.1 = lvl) :
+    ((pathEdges L j as 0).filter (fun e => loc.contains e)).length =
+      if (lvl, nodeAfter L j (as.take lvl), as.getD lvl 0) ∈ loc then 1 else 0 := by
+  rw [pathEdges_eq L j as 0 (by omega)]
+  have := count_level_aux as.length lvl (by omega) (fun k => (0 + k, nodeAfter L j (as.take k), as.getD k 0))
+    (fun k => by simp) loc hloc
+  rw [this]
+  simp only [Nat.zero_add]
+
+end Walk
+
+section Walk2
+variable {V : Type} [AddCommMonoid V]
+
+theorem allAssign_succ_iff (k : ℕ) (pre' : List ℕ) :
+    pre' ∈ allAssign (k + 1) ↔ ∃ pre c, pre ∈ allAssign k ∧ c < 2 ∧ pre' = pre ++ [c] := by
+  constructor
+  · intro h
+    obtain ⟨hl, hlt⟩ := (mem_allAssign _ _).mp h
+    have hne : pre' ≠ [] := by intro h0; rw [h0] at hl; simp at hl
+    refine ⟨pre'.dropLast, pre'.getLast hne, ?_, hlt _ (List.getLast_mem hne), (List.dropLast_concat_getLast hne).symm⟩
+    rw [mem_allAssign]
+    refine ⟨by simp [hl], fun x hx => hlt x ((List.dropLast_sublist _).subset hx)⟩
+  · rintro ⟨pre, c, hp, hc, rfl⟩
+    obtain ⟨hl, hlt⟩ := (mem_allAssign _ _).mp hp
+    rw [mem_allAssign]
+    refine ⟨by simp [hl], fun x hx => ?_⟩
+    rcases List.mem_append.mp hx with h | h
+    · exact hlt x h
+    · simp only [List.mem_singleton] at h; subst h; exact hc
+
+/-- the prefix `pre` agrees with the literals `l` (positions in `units`) -/
+def consistent (units : List ℕ) (l : List (ℕ × ℕ)) (pre : List ℕ) : Prop :=
+  ∀ uv ∈ l, pre.getD (units.idxOf uv.1) 0 = uv.2
+
+theorem consistent_concat (units : List ℕ) (l : List (ℕ × ℕ)) (pre : List ℕ) (c : ℕ)
+    (hpos : ∀ uv ∈ l, units.idxOf uv.1 < pre.length) : consistent units l (pre ++ [c]) ↔ consistent units l pre := by
+  unfold consistent
+  constructor
+  · intro h uv huv
+    rw [← h uv huv, List.getD_append _ _ _ _ (hpos uv huv)]
+  · intro h uv huv
+    rw [← h uv huv, List.getD_append _ _ _ _ (hpos uv huv)]
+
+/-- `nodes` = the nodes of level `cur` reached by the prefixes satisfying `P` -/
+def NodesInv (d : Diagram V) (cur : ℕ) (nodes : List ℕ) (P : List ℕ → Prop) : Prop :=
+  ∀ j, j ∈ nodes ↔ ∃ pre, pre ∈ allAssign cur ∧ P pre ∧ nodeAfter d.levels d.root pre = j
+
+theorem inv_expand (d : Diagram V) (hC : d.C = 2) (cur : ℕ) (hcur : cur < d.levels.length) (nodes : List ℕ)
+    (l : List (ℕ × ℕ)) (hpos : ∀ uv ∈ l, d.units.idxOf uv.1 < cur) (h : NodesInv d cur nodes (consistent d.units l)) :
+    NodesInv d (cur + 1)
+      (dedupSorted (nodes.flatMap (fun j => (List.range d.C).map (fun c => (nodeAt (d.levels.getD cur []) j).ch c))))
+      (consistent d.units l) := by
+  intro j'
+  rw [mem_dedupSorted, List.mem_flatMap]
+  constructor
+  · rintro ⟨j, hj, hj'⟩
+    obtain ⟨pre, hp, hcons, hn⟩ := (h j).mp hj
+    rw [List.mem_map] at hj'
+    obtain ⟨c, hc, rfl⟩ := hj'
+    rw [hC, List.mem_range] at hc
+    have hl := ((mem_allAssign _ _).mp hp).1
+    refine ⟨pre ++ [c], (allAssign_succ_iff _ _).mpr ⟨pre, c, hp, hc, rfl⟩, ?_, ?_⟩
+    · exact (consistent_concat _ _ _ _ (fun uv huv => by rw [hl]; exact hpos uv huv)).mpr hcons
+    · rw [nodeAfter_concat _ _ _ _ (by rw [hl]; exact hcur), hl, hn]
+  · rintro ⟨pre', hp', hcons, hn⟩
+    obtain ⟨pre, c, hp, hc, rfl⟩ := (allAssign_succ_iff _ _).mp hp'
+    have hl := ((mem_allAssign _ _).mp hp).1
+    refine ⟨nodeAfter d.levels d.root pre, (h _).mpr ⟨pre, hp, ?_, rfl⟩, ?_⟩
+    · exact (consistent_concat _ _ _ _ (fun uv huv => by rw [hl]; exact hpos uv huv)).mp hcons
+    · rw [List.mem_map]
+      refine ⟨c, by rw [hC, List.mem_range]; exact hc, ?_⟩
+      rw [← hn, nodeAfter_concat _ _ _ _ (by rw [hl]; exact hcur), hl]
+
+theorem inv_select (d : Diagram V) (cur : ℕ) (hcur : cur < d.levels.length) (nodes : List ℕ)
+    (l : List (ℕ × ℕ)) (hpos : ∀ uv ∈ l, d.units.idxOf uv.1 < cur) (h : NodesInv d cur nodes (consistent d.units l))
+    (u v : ℕ) (hu : d.units.idxOf u = cur) (hv : v < 2) :
+    NodesInv d (cur + 1) (dedupSorted (nodes.map (fun j => (nodeAt (d.levels.getD cur []) j).ch v)))
+      (consistent d.units (l ++ [(u, v)])) := by
+  intro j'
+  rw [mem_dedupSorted, List.mem_map]
+  constructor
+  · rintro ⟨j, hj, rfl⟩
+    obtain ⟨pre, hp, hcons, hn⟩ := (h j).mp hj
+    have hl := ((mem_allAssign _ _).mp hp).1
+    refine ⟨pre ++ [v], (allAssign_succ_iff _ _).mpr ⟨pre, v, hp, hv, rfl⟩, ?_, ?_⟩
+    · intro uv huv
+      rcases List.mem_append.mp huv with h1 | h1
+      · rw [List.getD_append _ _ _ _ (by rw [hl]; exact hpos uv h1)]; exact hcons uv h1
+      · simp only [List.mem_singleton] at h1; subst h1
+        simp only
+        rw [hu, List.getD_append_right _ _ _ _ (by omega), hl]; simp
+    · rw [nodeAfter_concat _ _ _ _ (by rw [hl]; exact hcur), hl, hn]
+  · rintro ⟨pre', hp', hcons, hn⟩
+    obtain ⟨pre, c, hp, hc, rfl⟩ := (allAssign_succ_iff _ _).mp hp'
+    have hl := ((mem_allAssign _ _).mp hp).1
+    have hcv : c = v := by
+      have := hcons (u, v) (by simp)
+      simp only at this
+      rw [hu, List.getD_append_right _ _ _ _ (by omega), hl] at this
+      simpa using this
+    subst hcv
+    refine ⟨nodeAfter d.levels d.root pre, (h _).mpr ⟨pre, hp, ?_, rfl⟩, ?_⟩
+    · intro uv huv
+      have := hcons uv (List.mem_append.mpr (Or.inl huv))
+      rwa [List.getD_append _ _ _ _ (by rw [hl]; exact hpos uv huv)] at this
+    · rw [← hn, nodeAfter_concat _ _ _ _ (by rw [hl]; exact hcur), hl]
+
+theorem skip_spec (d : Diagram V) (hC : d.C = 2) (hw : d.WF) (hnd : d.units.Nodup) (u : ℕ) (hu : u ∈ d.units)
+    (l : List (ℕ × ℕ)) (fuel : ℕ) (cur : ℕ) (hcur : cur ≤ d.units.idxOf u)
+    (hpos : ∀ uv ∈ l, d.units.idxOf uv.1 < cur) (nodes : List ℕ) (h : NodesInv d cur nodes (consistent d.units l))
+    (hf : d.units.idxOf u - cur < fuel) :
+    ∃ nodes', Diagram.getUpdateLocation.skip d u cur nodes fuel = .ok (d.units.idxOf u, nodes') ∧
+      NodesInv d (d.units.idxOf u) nodes' (consistent d.units l) := by
+  have hi : d.units.idxOf u < d.units.length := List.idxOf_lt_length_iff.mpr hu
+  induction fuel generalizing cur nodes with
+  | zero => omega
+  | succ fuel ih =>
+    unfold Diagram.getUpdateLocation.skip
+    have hcl : cur < d.units.length := by omega
+    rw [List.getElem?_eq_getElem hcl]
+    simp only
+    by_cases hcu : d.units[cur] = u
+    · have : d.units.idxOf u = cur := by rw [← hcu]; exact hnd.idxOf_getElem cur hcl
+      rw [if_pos (by simpa using hcu)]
+      exact ⟨nodes, by rw [this]; rfl, this ▸ h⟩
+    · rw [if_neg (by simpa using hcu)]
+      have hne : cur ≠ d.units.idxOf u := by
+        intro he; apply hcu; subst he; exact List.getElem_idxOf hi
+      exact ih (cur + 1) (by omega) (fun uv huv => by have := hpos uv huv; omega) _
+        (inv_expand d hC cur (by rw [hw.len]; exact hcl) nodes l hpos h) (by omega)
+
+end Walk2
+
+section Walk3
+variable {V : Type} [AddCommMonoid V]
+
+theorem skip_nodup (d : Diagram V) (u : ℕ) (fuel cur : ℕ) (nodes : List ℕ) (hn : nodes.Nodup) (c' : ℕ) (nodes' : List ℕ)
+    (h : Diagram.getUpdateLocation.skip d u cur nodes fuel = .ok (c', nodes')) : nodes'.Nodup := by
+  induction fuel generalizing cur nodes with
+  | zero => unfold Diagram.getUpdateLocation.skip at h; cases h
+  | succ fuel ih =>
+    unfold Diagram.getUpdateLocation.skip at h
+    split at h
+    · cases h
+    · split at h
+      · simp only [pure, Except.pure, Except.ok.injEq, Prod.mk.injEq] at h
+        rw [← h.2]; exact hn
+      · exact ih _ _ (nodup_dedupSorted _) h
+
+theorem walk_spec (d : Diagram V) (hC : d.C = 2) (hw : d.WF) (hnd : d.units.Nodup) (rest' : List (ℕ × ℕ)) :
+    ∀ (u v cur : ℕ) (nodes : List ℕ) (loc0 : List (ℕ × ℕ × ℕ)) (done : List (ℕ × ℕ)) (loc : List (ℕ × ℕ × ℕ)),
+      Diagram.getUpdateLocation.walk d ((u, v) :: rest') cur nodes loc0 = .ok loc →
+      (∀ uv ∈ (u, v) :: rest', uv.1 ∈ d.units ∧ uv.2 < 2) →
+      ((u, v) :: rest').Pairwise (fun a b => d.units.idxOf a.1 < d.units.idxOf b.1) →
+      cur ≤ d.units.idxOf u → (∀ uv ∈ done, d.units.idxOf uv.1 < cur) → nodes.Nodup →
+      NodesInv d cur nodes (consistent d.units done) →
+      loc.Nodup ∧ ∀ e, e ∈ loc ↔ ∃ pre, pre ∈ allAssign (d.units.idxOf (((u, v) :: rest').getLast (by simp)).1) ∧
+        consistent d.units (done ++ ((u, v) :: rest').dropLast) pre ∧
+        e = (d.units.idxOf (((u, v) :: rest').getLast (by simp)).1, nodeAfter d.levels d.root pre,
+          (((u, v) :: rest').getLast (by simp)).2) := by
+  induction rest' with
+  | nil =>
+    intro u v cur nodes loc0 done loc h hmem hsorted hcur hpos hnn hinv
+    have hu := (hmem (u, v) (by simp)).1
+    have hi : d.units.idxOf u < d.units.length := List.idxOf_lt_length_iff.mpr hu
+    obtain ⟨nodes', hskip, hinv'⟩ := skip_spec d hC hw hnd u hu done (d.levels.length + 1) cur hcur hpos nodes hinv
+      (by rw [hw.len]; omega)
+    have hnn' := skip_nodup d u _ _ _ hnn _ _ hskip
+    unfold Diagram.getUpdateLocation.walk at h
+    rw [hskip] at h
+    simp only [bind, Except.bind, Diagram.getUpdateLocation.walk, pure, Except.pure, Except.ok.injEq] at h
+    subst h
+    refine ⟨hnn'.map (fun a b hab => by simpa using hab), fun e => ?_⟩
+    simp only [List.getLast_singleton, List.dropLast_singleton, List.append_nil, List.mem_map]
+    constructor
+    · rintro ⟨j, hj, rfl⟩
+      obtain ⟨pre, h1, h2, h3⟩ := (hinv' j).mp hj
+      exact ⟨pre, h1, h2, by rw [h3]⟩
+    · rintro ⟨pre, h1, h2, rfl⟩
+      exact ⟨_, (hinv' _).mpr ⟨pre, h1, h2, rfl⟩, rfl⟩
+  | cons uv2 rest'' ih =>
+    obtain ⟨u2, v2⟩ := uv2
+    intro u v cur nodes loc0 done loc h hmem hsorted hcur hpos hnn hinv
+    have hu := (hmem (u, v) (by simp)).1
+    have hv := (hmem (u, v) (by simp)).2
+    have hi : d.units.idxOf u < d.units.length := List.idxOf_lt_length_iff.mpr hu
+    obtain ⟨nodes', hskip, hinv'⟩ := skip_spec d hC hw hnd u hu done (d.levels.length + 1) cur hcur hpos nodes hinv
+      (by rw [hw.len]; omega)
+    unfold Diagram.getUpdateLocation.walk at h
+    rw [hskip] at h
+    simp only [bind, Except.bind] at h
+    have hpos' : ∀ uv ∈ done, d.units.idxOf uv.1 < d.units.idxOf u := fun uv huv => by
+      have := hpos uv huv; omega
+    have hinv2 := inv_select d (d.units.idxOf u) (by rw [hw.len]; exact hi) nodes' done hpos' hinv' u v rfl hv
+    rw [List.pairwise_cons] at hsorted
+    have := ih u2 v2 (d.units.idxOf u + 1) _ _ (done ++ [(u, v)]) loc h
+      (fun uv huv => hmem uv (by simp [huv])) hsorted.2
+      (by have := hsorted.1 (u2, v2) (by simp); simp only at this; omega)
+      (by intro uv huv
+          rcases List.mem_append.mp huv with h1 | h1
+          · have := hpos' uv h1; omega
+          · simp only [List.mem_singleton] at h1; subst h1; simp)
+      (nodup_dedupSorted _) hinv2
+    simpa only [List.getLast_cons_cons, List.dropLast_cons_cons, List.append_assoc, List.singleton_append] using this
+
+end Walk3
+
+section Walk4
+variable {V : Type} [AddCommMonoid V]
+
+/-- `get_update_location` for an assignment of at least two distinct units: the value-`v` edges of the last unit
+(in diagram order) at the nodes reached by the prefixes that agree with the other literals -/
+theorem getUpdateLocation_multi (d : Diagram V) (hC : d.C = 2) (hw : d.WF) (hnd : d.units.Nodup) (asg : List (ℕ × ℕ))
+    (hmem : ∀ uv ∈ asg, uv.1 ∈ d.units ∧ uv.2 < 2) (hnodup : (asg.map Prod.fst).Nodup) (h2 : 2 ≤ asg.length)
+    (loc : List (ℕ × ℕ × ℕ)) (h : d.getUpdateLocation asg = .ok loc) :
+    ∃ init last, (init ++ [last]).Perm asg ∧ (∀ uv ∈ init, d.units.idxOf uv.1 < d.units.idxOf last.1) ∧ loc.Nodup ∧
+      ∀ e, e ∈ loc ↔ ∃ pre, pre ∈ allAssign (d.units.idxOf last.1) ∧ consistent d.units init pre ∧
+        e = (d.units.idxOf last.1, nodeAfter d.levels d.root pre, last.2) := by
+  have hperm := List.mergeSort_perm asg (fun a b => decide (d.units.idxOf a.1 ≤ d.units.idxOf b.1))
+  have hpw := List.pairwise_mergeSort (le := fun a b : ℕ × ℕ => decide (d.units.idxOf a.1 ≤ d.units.idxOf b.1))
+    (by intro a b c h1 h2; simp only [decide_eq_true_eq] at *; omega)
+    (by intro a b; simp only [Bool.or_eq_true, decide_eq_true_eq]; omega) asg
+  unfold Diagram.getUpdateLocation at h
+  have hany : asg.any (fun uv => !d.units.contains uv.1) = false := by
+    rw [List.any_eq_false]; intro uv huv; simp [(hmem uv huv).1]
+  simp only [hany, Bool.false_eq_true, if_false] at h
+  generalize asg.mergeSort (fun a b => decide (d.units.idxOf a.1 ≤ d.units.idxOf b.1)) = sorted at h hperm hpw
+  have hlen : sorted.length = asg.length := hperm.length_eq
+  have hnd' : (sorted.map Prod.fst).Nodup := (hperm.map Prod.fst).nodup_iff.mpr hnodup
+  have hmem' : ∀ uv ∈ sorted, uv.1 ∈ d.units ∧ uv.2 < 2 := fun uv huv => hmem uv (hperm.mem_iff.mp huv)
+  have hstrict : sorted.Pairwise (fun a b => d.units.idxOf a.1 < d.units.idxOf b.1) := by
+    have hne := List.pairwise_map.mp hnd'
+    refine (hpw.and hne).imp_of_mem ?_
+    intro a b ha hb hab
+    obtain ⟨h1, h2⟩ := hab
+    simp only [decide_eq_true_eq] at h1
+    have hia : d.units.idxOf a.1 < d.units.length := List.idxOf_lt_length_iff.mpr (hmem' a ha).1
+    have hib : d.units.idxOf b.1 < d.units.length := List.idxOf_lt_length_iff.mpr (hmem' b hb).1
+    have : d.units.idxOf a.1 ≠ d.units.idxOf b.1 := fun he => h2 (by
+      rw [← List.getElem_idxOf hia, ← List.getElem_idxOf hib]
+      simp only [he])
+    omega
+  match sorted, hlen, hperm, hmem', hstrict, h with
+  | [], hlen, _, _, _, _ => simp at hlen; omega
+  | [x], hlen, _, _, _, _ => simp at hlen; omega
+  | (u, v) :: y :: rest, hlen, hperm, hmem', hstrict, h =>
+    simp only [pure, Except.pure, bind, Except.bind] at h
+    have hw0 : NodesInv d 0 [d.root] (consistent d.units []) := by
+      intro j
+      simp only [allAssign, List.mem_singleton]
+      constructor
+      · rintro rfl; exact ⟨[], rfl, by intro uv h; simp at h, nodeAfter_nil _ _⟩
+      · rintro ⟨pre, rfl, _, h⟩; rw [nodeAfter_nil] at h; exact h.symm
+    obtain ⟨hn, hloc⟩ := walk_spec d hC hw hnd (y :: rest) u v 0 [d.root] [] [] loc h hmem' hstrict (Nat.zero_le _)
+      (by simp) (by simp) hw0
+    refine ⟨((u, v) :: y :: rest).dropLast, ((u, v) :: y :: rest).getLast (by simp), ?_, ?_, hn, ?_⟩
+    · rw [List.dropLast_concat_getLast]; exact hperm
+    · have := hstrict
+      rw [← List.dropLast_concat_getLast (l := (u, v) :: y :: rest) (by simp), List.pairwise_append] at this
+      intro uv huv
+      exact this.2.2 uv huv _ (by simp)
+    · simpa using hloc
+
+end Walk4
+
+section RowDet
+variable {V : Type} [AddCommMonoid V]
+
+theorem active_nodeAfter (C : ℕ) (L : List (Level V)) (j : ℕ) (as : List ℕ) (hw : wf C L j) (hC : ∀ a ∈ as, a < C)
+    (hl : as.length < L.length) : (nodeAt (L.getD as.length []) (nodeAfter L j as)).active = true := by
+  induction L generalizing j as with
+  | nil => simp at hl
+  | cons lv rest ih =>
+    cases as with
+    | nil => simpa [nodeAfter] using hw.1
+    | cons a as =>
+      simp only [nodeAfter, List.length_cons, List.getD_cons_succ]
+      exact ih _ as (hw.2 a (hC a (by simp))) (fun x hx => hC x (by simp [hx])) (by simpa using hl)
+
+/-- the node reached at the level of the last unit of a row determines the values of the row's other units -/
+def RowDet (d : Diagram V) (us : List ℕ) : Prop :=
+  ∀ ulast ∈ us, (∀ u ∈ us, d.units.idxOf u ≤ d.units.idxOf ulast) →
+    ∀ a ∈ allAssign d.units.length, ∀ b ∈ allAssign d.units.length,
+      nodeAfter d.levels d.root (a.take (d.units.idxOf ulast)) = nodeAfter d.levels d.root (b.take (d.units.idxOf ulast)) →
+      ∀ u ∈ us, u ≠ ulast → a.getD (d.units.idxOf u) 0 = b.getD (d.units.idxOf u) 0
+
+theorem take_mem_allAssign (n k : ℕ) (a : List ℕ) (ha : a ∈ allAssign n) (hk : k ≤ n) : a.take k ∈ allAssign k := by
+  obtain ⟨hl, hlt⟩ := (mem_allAssign _ _).mp ha
+  rw [mem_allAssign]
+  exact ⟨by simp [hl, hk], fun x hx => hlt x (List.mem_of_mem_take hx)⟩
+
+/-- one row of `LocSpec` -/
+theorem locSpec_row (d : Diagram V) (hC : d.C = 2) (hw : d.WF) (hnd : d.units.Nodup) (us : List ℕ)
+    (hus : ∀ u ∈ us, u ∈ d.units) (hund : us.Nodup) (hdet : RowDet d us) (loc : List (ℕ × ℕ × ℕ))
+    (h : d.getUpdateLocation (us.map (fun u => (u, 1))) = .ok loc) :
+    loc.Nodup ∧ (∀ e ∈ loc, e.1 < d.levels.length ∧ e.2.1 < (d.levels.getD e.1 []).length ∧ e.2.2 < d.C) ∧
+    ∀ args ∈ allAssign d.units.length,
+      ((pathEdges d.levels d.root args 0).filter (fun e => loc.contains e)).length =
+        if (us.map (fun u => (u, 1))).all (fun uv => args.getD (d.units.idxOf uv.1) 0 == uv.2) then 1 else 0 := by
+  have hwr : wf 2 d.levels d.root := hC ▸ hw.reach
+  match us, hus, hund, hdet, h with
+  | [], _, _, _, h =>
+    simp [Diagram.getUpdateLocation, throw, throwThe, MonadExceptOf.throw, bind, Except.bind, pure, Except.pure] at h
+  | [u], hus, _, _, h =>
+    have hu := hus u (by simp)
+    have hi : d.units.idxOf u < d.units.length := List.idxOf_lt_length_iff.mpr hu
+    simp only [List.map_cons, List.map_nil] at h
+    rw [getUpdateLocation_single d u 1 hu] at h
+    simp only [Except.ok.injEq] at h
+    subst h
+    have hmemU : ∀ e, e ∈ unitLoc d u 1 ↔ e.1 = d.units.idxOf u ∧ e.2.2 = 1 ∧
+        e.2.1 < (d.levels.getD (d.units.idxOf u) []).length ∧
+        (nodeAt (d.levels.getD (d.units.idxOf u) []) e.2.1).active = true := by
+      intro e
+      unfold unitLoc
+      simp only [List.mem_map, List.mem_filter, List.mem_range]
+      constructor
+      · rintro ⟨j, ⟨h1, h2⟩, rfl⟩; exact ⟨rfl, rfl, h1, h2⟩
+      · rintro ⟨h1, h2, h3, h4⟩; exact ⟨e.2.1, ⟨h3, h4⟩, by rw [← h1, ← h2]⟩
+    refine ⟨unitLoc_nodup _ _ _, fun e he => ?_, fun args hargs => ?_⟩
+    · obtain ⟨h1, h2, h3, _⟩ := (hmemU e).mp he
+      exact ⟨by rw [h1, hw.len]; exact hi, by rw [h1]; exact h3, by rw [h2, hC]; omega⟩
+    · obtain ⟨hl, hlt⟩ := (mem_allAssign _ _).mp hargs
+      rw [cross_level d.levels d.root args (by rw [hl, hw.len]) _ (d.units.idxOf u) (by rw [hw.len]; exact hi)
+        (fun e he => ((hmemU e).mp he).1)]
+      have hact := active_nodeAfter 2 d.levels d.root (args.take (d.units.idxOf u)) hwr
+        (fun x hx => hlt x (List.mem_of_mem_take hx)) (by simp [hl, hw.len]; omega)
+      rw [List.length_take, hl, Nat.min_eq_left (by omega)] at hact
+      simp only [List.map_cons, List.map_nil, List.all_cons, List.all_nil, Bool.and_true, beq_iff_eq]
+      congr 1
+      rw [hmemU]
+      simp only [true_and, eq_iff_iff]
+      exact ⟨fun h => h.1, fun h => ⟨h, nodeAt_lt_of_active hact, hact⟩⟩
+  | u1 :: u2 :: rest, hus, hund, hdet, h =>
+    obtain ⟨init, last, hperm, hlt, hn, hloc⟩ := getUpdateLocation_multi d hC hw hnd _
+      (by intro uv huv; obtain ⟨u, hu, rfl⟩ := List.mem_map.mp huv; exact ⟨hus u hu, by simp⟩)
+      (by rw [List.map_map]; have : (Prod.fst ∘ fun u : ℕ => (u, 1)) = id := rfl
+          rw [this, List.map_id]; exact hund) (by simp) loc h
+    have hmemAsg : ∀ uv, uv ∈ init ++ [last] ↔ uv.1 ∈ (u1 :: u2 :: rest) ∧ uv.2 = 1 := by
+      intro uv
+      rw [hperm.mem_iff, List.mem_map]
+      constructor
+      · rintro ⟨u, hu, rfl⟩; exact ⟨hu, rfl⟩
+      · rintro ⟨h1, h2⟩; exact ⟨uv.1, h1, by rw [← h2]⟩
+    have hlast := (hmemAsg last).mp (by simp)
+    have hil : d.units.idxOf last.1 < d.units.length := List.idxOf_lt_length_iff.mpr (hus _ hlast.1)
+    refine ⟨hn, fun e he => ?_, fun args hargs => ?_⟩
+    · obtain ⟨pre, hp, _, rfl⟩ := (hloc e).mp he
+      obtain ⟨hl, hlt'⟩ := (mem_allAssign _ _).mp hp
+      have hact := active_nodeAfter 2 d.levels d.root pre hwr hlt' (by rw [hl, hw.len]; exact hil)
+      rw [hl] at hact
+      exact ⟨by rw [hw.len]; exact hil, nodeAt_lt_of_active hact, by rw [hlast.2, hC]; omega⟩
+    · obtain ⟨hl, hlt'⟩ := (mem_allAssign _ _).mp hargs
+      rw [cross_level d.levels d.root args (by rw [hl, hw.len]) _ (d.units.idxOf last.1) (by rw [hw.len]; exact hil)
+        (fun e he => by obtain ⟨pre, _, _, rfl⟩ := (hloc e).mp he; rfl)]
+      have hallIff : ((u1 :: u2 :: rest).map (fun u => (u, 1))).all
+          (fun uv => args.getD (d.units.idxOf uv.1) 0 == uv.2) = true ↔
+          ∀ uv ∈ init ++ [last], args.getD (d.units.idxOf uv.1) 0 = uv.2 := by
+        rw [List.all_eq_true]
+        constructor
+        · intro h uv huv
+          have := h uv (hperm.mem_iff.mp huv); simpa using this
+        · intro h uv huv
+          have := h uv (hperm.mem_iff.mpr huv); simpa using this
+      congr 1
+      rw [hallIff, hloc]
+      simp only [eq_iff_iff]
+      constructor
+      · rintro ⟨pre, hp, hcons, heq⟩
+        simp only [Prod.mk.injEq, true_and] at heq
+        obtain ⟨hnode, hval⟩ := heq
+        have hlp := ((mem_allAssign _ _).mp hp)
+        -- the assignment `b` extending `pre`
+        have hb : pre ++ args.drop (d.units.idxOf last.1) ∈ allAssign d.units.length := by
+          rw [mem_allAssign]
+          refine ⟨by simp [hlp.1, hl]; omega, fun x hx => ?_⟩
+          rcases List.mem_append.mp hx with h1 | h1
+          · exact hlp.2 x h1
+          · exact hlt' x (List.mem_of_mem_drop h1)
+        have hbt : (pre ++ args.drop (d.units.idxOf last.1)).take (d.units.idxOf last.1) = pre := by
+          rw [List.take_append_of_le_length (by rw [hlp.1]), List.take_of_length_le (by rw [hlp.1])]
+        have hd := hdet last.1 hlast.1 (fun u hu => by
+            by_cases hul : (u, 1) = last
+            · rw [← hul]
+            · have : (u, 1) ∈ init := by
+                have := (hmemAsg (u, 1)).mpr ⟨hu, rfl⟩
+                rcases List.mem_append.mp this with h1 | h1
+                · exact h1
+                · simp only [List.mem_singleton] at h1; exact absurd h1 hul
+              exact Nat.le_of_lt (hlt _ this))
+          args hargs _ hb (by rw [hbt, hnode])
+        intro uv huv
+        rcases List.mem_append.mp huv with h1 | h1
+        · have hne : uv.1 ≠ last.1 := by
+            intro he; have := hlt uv h1; rw [he] at this; omega
+          rw [hd uv.1 ((hmemAsg uv).mp huv).1 hne, List.getD_append _ _ _ _ (by rw [hlp.1]; exact hlt uv h1)]
+          exact hcons uv h1
+        · simp only [List.mem_singleton] at h1; subst h1; exact hval
+      · intro hall
+        refine ⟨args.take (d.units.idxOf last.1), take_mem_allAssign _ _ _ hargs (by omega), ?_, ?_⟩
+        · intro uv huv
+          have hlt1 := hlt uv huv
+          rw [← hall uv (List.mem_append.mpr (Or.inl huv)), List.getD_eq_getElem?_getD, List.getD_eq_getElem?_getD,
+            List.getElem?_take_of_lt hlt1]
+        · rw [hall last (by simp)]
+
+end RowDet
+
 end Ds.Oracle
